@@ -6,7 +6,7 @@ from lib import Result, model_call, run_sharded, Reader, RMODES, OMODES
 
 RULE = ('histories: a pool of objects is grown by every public derivation route (constructor, like=, class template, deepcopy(), like(), Fxp(x), x+y / x*const, ~x / x&m, x<<k / x>>k in each shifting mode, np.sum / np.add, x[i]) and then mutated '
         '(whole-value writes, indexed writes, config changes, flag-raising writes, reset()); after every mutation every OTHER object must be unchanged (value, status record, configuration), except that an indexed write is visible through the parent/view pair created by x[i]; '
-        'identity facts (config / status / callbacks objects, np.shares_memory of buffers) are compared with the allocation table of the model Alias.v; input containers (list, tuple, nested list, ndarray, lists of bin/hex strings) are compared before/after construction; '
+        'identity facts (config / status / callbacks objects, np.shares_memory of buffers) are compared with the allocation table of the model Alias.v; input containers (list, tuple, nested lists to 3 levels, ndarray, lists of arrays, flat and nested lists / tuples / arrays of bin, hex and decimal strings, the rendering of a 2-D object) are compared before/after construction; '
         'every invalid configuration value is tried through attribute assignment, constructor keyword and Config.update. Non-trivial = the history contains a flag-raising or config-changing mutation after a derivation; distinct by full history.')
 ASSUMPTIONS = ['copy(), .T, flatten(), fxp_like() are documented shallow copies and outside the statement', 'Python reference semantics (is, ndarray views) are taken from the interpreter']
 ROUTES = ['ctor', 'like_kw', 'template', 'deepcopy', 'like_method', 'fxp_of_fxp', 'add', 'mul_const', 'invert', 'and_mask', 'lshift', 'rshift_expand', 'rshift_keep', 'np_sum', 'np_add', 'neg', 'getitem',
@@ -135,12 +135,24 @@ def view_write_through(rng, res):
     if float(np.asarray(x.get_val())[i, j]) != 1.5 or np.count_nonzero(np.asarray(x.val)) != 1:
         res.fail({'i': i, 'j': j}, 'C20: chained indexed assignment x[i][j] = v does not write through to x', expected=1.5, got=np.asarray(x.get_val()).tolist())
 
+def deep_same(a, b):
+    """same types and same contents, recursively (lists / tuples / ndarrays / scalars)"""
+    import numpy as np
+    if type(a) != type(b): return False
+    if isinstance(a, np.ndarray): return a.dtype == b.dtype and a.shape == b.shape and bool(np.array_equal(a, b))
+    if isinstance(a, (list, tuple)): return len(a) == len(b) and all(deep_same(x, y) for x, y in zip(a, b))
+    return a == b
+
 def inputs_unchanged(rng, res):
     fx = lib.impl(); import numpy as np
     containers = [
         ('list', [0.5, 1.25, -3.0]), ('tuple', (0.5, 1.25, -3.0)), ('nested', [[1, 2], [3, 4]]), ('ndarray', np.array([0.5, 1.25, -3.0])), ('int_ndarray', np.array([1, 2, 3], dtype=np.int16)),
         ('bin_strings', ['0b0101', '0b1111', '0b0001']), ('hex_strings', ['0x0F', '0xA1', '0x7f']), ('nested_tuple', ((1.5, 2.5), (3.5, 4.5))), ('mixed_list', [1, 2.5, 3]),
         ('dec_strings', ['1.5', '-2.25']),
+        ('nested_bin_strings', [['0b0101', '0b0011'], ['0b0001', '0b0110']]), ('nested_hex_strings', [['0x0F', '0xA1'], ['0x7f', '0x01']]), ('nested_dec_strings', [['1.5', '-2.25'], ['0.5', '3']]),
+        ('list_of_string_tuples', [('0b0101', '0b0011'), ('0b0001', '0b0110')]), ('list_of_string_arrays', [np.array(['0b0101', '0b0011']), np.array(['0b0001', '0b0110'])]),
+        ('rendered_2d_bin', fx.Fxp([[1.5, -2.0], [0.25, 3.0]], True, 16, 4).bin()), ('rendered_2d_hex', fx.Fxp([[1.5, -2.0], [0.25, 3.0]], True, 16, 4).hex()),
+        ('nested_3_levels', [[[1, 2], [3, 4]], [[5, 6], [7, 8]]]), ('list_of_int_arrays', [np.array([1, 2]), np.array([3, 4])]),
     ]
     for name, c in containers:
         before = copy.deepcopy(c)
@@ -149,8 +161,7 @@ def inputs_unchanged(rng, res):
                 if route == 'ctor': fx.Fxp(c, True, 16, 4)
                 elif route == 'call': fx.Fxp(None, True, 16, 4)(c)
                 else: fx.Fxp(None, True, 16, 4).set_val(c)
-                same = np.array_equal(before, c) if isinstance(c, np.ndarray) else (before == c and type(before) == type(c))
-                types_same = True if isinstance(c, np.ndarray) else [type(a) for a in np.array(c, dtype=object).reshape(-1).tolist()] == [type(a) for a in np.array(before, dtype=object).reshape(-1).tolist()]
+                same = deep_same(before, c); types_same = True
                 res.count('I:inputs', key=(name, route), nontrivial=True)
                 if not same or not types_same:
                     res.fail({'container': name, 'route': route}, 'C20: building an object from a %s modified the caller\'s container' % name, expected=repr(before), got=repr(c)); break
